@@ -86,7 +86,8 @@ def run(ctx):
         g = P.fns.get(fk)
         if g is None:
             continue
-        R.check_result_guard(ctx, "E4.zero", P, fk, "is_zero", ("param", "input"), exits=lambda fn, ev: [b for b, s in ev.sites.items() if s.callee[0] == "PrimeField::from_repr"])
+        pass
+    R.check_scalar_zero_guard(ctx, "E4.zero", P)
     F.check_iszero(ctx, P, "E8.iszero", check_asserts=False, need=("zero",))
     imps = call_sites(P, lambda c, t: c.get("name") == "from_repr" and c.get("trait") == "PrimeField")
     for fn, bb, t in imps:
